@@ -42,6 +42,7 @@ mutual
 def rnE (ν : Ren) (bs : List Name) : Expr → Expr
   | .lit l => .lit l
   | .var x => .var (rnVar ν bs x)
+  | .dimVar x => .dimVar (rnVar ν bs x)
   | .un op a => .un op (rnE ν bs a)
   | .bin op a b => .bin op (rnE ν bs a) (rnE ν bs b)
   | .and a b => .and (rnE ν bs a) (rnE ν bs b)
@@ -134,7 +135,7 @@ mutual
 /-- every identifier use of an expression together with the static stack at the use -/
 def usesE (bs : List Name) : Expr → List (Name × List Name)
   | .lit _ | .enumVal _ _ => []
-  | .var x => [(x, bs)]
+  | .var x | .dimVar x => [(x, bs)]
   | .un _ a => usesE bs a
   | .bin _ a b | .and a b | .or a b | .assign a b | .while a b | .doWhile a b => usesE bs a ++ usesE bs b
   | .cond c t e => usesE bs c ++ usesE bs t ++ usesE bs e
